@@ -1,9 +1,13 @@
 """C17 - clash detection equals the pairwise van-der-Waals definition.
 
 Decided on clashfinder.py: the KD-tree search radius covers the largest acceptance threshold for every pair of atom
-types (same molprobity term on both sides), the accept region of the distance test, the molprobity constant, one
-filter per option (closed world), atoms considered, each pair once, CLI argument <-> parameter agreement, accumulator
-self-reference, None-only occupancy defaults, printed and CSV loops over the same containers with the same sort.
+types, the listed pairs equal the van-der-Waals definition for all 32 option combinations (distance threshold per type
+pair and mode, one filter per option, occupancy rule and sum, atoms considered, record roles, each pair once; closed
+world of the conditions), CLI argument <-> parameter agreement, accumulator self-reference, None-only occupancy
+defaults, report and CSV list the clashes found with every atom under its own residue, maxima, same order.
+
+Fact-level rules (checks/c17e.py: find_clashes and main evaluated on input-class representatives) come first; the
+pinned-form rules below (`legacy_*`) run only when the fact-level reading is impossible.
 """
 from __future__ import annotations
 
@@ -55,10 +59,14 @@ def run(chk) -> None:
     repo = chk.repo
     c = spec("constants.json")["C17"]
     chk.explanation = (
-        "Static rules on clashfinder.py: radii per atom type obtained by abstract evaluation of AtomType.radius; the KD-tree query argument and the acceptance threshold are folded for both "
-        "molprobity settings and every pair of atom types, and the former must cover the latter; accept region of the distance test evaluated over its cells; closed-world classification of "
-        "the filters with exactly one per option; collection rule; one record per query pair; positional CLI arguments vs parameter names; accumulator updates read what they write; occupancy "
-        "defaults by `is None` only; both output loops iterate the same containers with the same ordering."
+        "Static rules on clashfinder.py: radii per atom type obtained by abstract evaluation of AtomType.radius (module-level tables folded). find_clashes is read from the ast and evaluated "
+        "(sa/blockeval + rule-supplied stubs, KD-tree modelled as 'every pair within the radius once'; nothing of the library is imported or run) on one synthetic structure of well separated "
+        "two-atom clusters, one per input class (16 ordered type pairs x 4 distance cells just below/above r_a+r_b and r_a+r_b+0.5; same/different residue x nucleotide flags x equal/different "
+        "names x 5 occupancy classes incl. 0.0 and missing x 2 distance cells; atoms of no known type), for all 32 option combinations, plus inputs with fewer than two atoms; the listed pairs, "
+        "record roles and sums are compared with the pairwise van-der-Waals definition; the evaluated KD-tree radius must cover the largest threshold; every atomic condition met is classified as "
+        "a function of one feature of the definition (closed world). main is evaluated the same way on a representative clash list with tokens for chains, residues and atoms: listed lines and "
+        "CSV rows = the clashes, every atom under its own residue (key and record of a filed clash agree on orientation), printed maxima, same order in both outputs, independence of set iteration "
+        "order. Positional CLI arguments vs parameter names; accumulator updates read what they write; no truthiness default on occupancies. The pinned-form rules run only when a function cannot be evaluated."
     )
     chk.trusted = ["CPython ast", "scipy KDTree.query_pairs returns every pair within the radius exactly once"]
     chk.assumptions = ["float distance arithmetic is not decided", "atom typing by first letter of the name as coded (C/N/O/P)"]
@@ -68,6 +76,32 @@ def run(chk) -> None:
     chk.expect(set(radii) == {"C", "N", "O", "P"} and all(isinstance(v, float) and v > 0 for v in radii.values()), "atom-types", f"src/rnapolis/clashfinder.py:{at.lineno} AtomType", f"four atom types with radii {radii}", f"atom types/radii are not total over C, N, O, P: {radii}", f"{M}:AtomType:radii", found=radii)
     fi = repo.func(M, "find_clashes")
     chk.note_function(fi)
+    from checks import c17e
+
+    total = set(radii) == {"C", "N", "O", "P"} and all(isinstance(v, float) and v > 0 for v in radii.values())
+    why = c17e.check_find_clashes(chk, fi, radii, c["molprobity_extra"]) if total else "the radii of the atom types are not total"
+    if why is None:
+        # decided on the current code whatever its shape; the pinned forms are not consulted
+        chk.ok("molprobity-term", fi.where, f"the extra tolerance is decided by rule `distance-threshold`: pairs just below r_a + r_b + {c['molprobity_extra']} are accepted and pairs just above rejected in MolProbity mode, r_a + r_b otherwise")
+        truthy = [n for n in ast.walk(fi.node) if isinstance(n, ast.BoolOp) and isinstance(n.op, ast.Or) and any(isinstance(v, ast.Attribute) and v.attr == "occupancy" for v in n.values)]
+        chk.expect(not truthy, "optional-truthiness", fi.site(truthy[0]) if truthy else fi.where, "no `occupancy or default`: a stated occupancy of 0.0 is kept", f"`{norm(truthy[0])}` replaces a stated occupancy of 0.0 by the default" if truthy else "", K(fi, "occupancy-or"))
+    else:
+        chk.ok("clash-facts", fi.where, f"fact-level reading of find_clashes not possible ({why[:140]}); falling back to the pinned forms")
+        try:
+            legacy_find_clashes(chk, fi, radii, c)
+        except AnalysisError as ex:  # the pinned anchor (one top-level loop over kdtree.query_pairs) is gone as well: the other obligations are still evaluated
+            chk.error("clash-facts", fi.where, f"find_clashes can be read neither at fact level ({why[:100]}) nor in its pinned form ({ex})")
+    mt =repo.func(M, "AtomType.matches")
+    chk.note_function(mt)
+    chk.expect([norm(s) for s in mt.node.body] == ["return atom.name.strip().startswith(self.value)"], "collection", mt.where, "an atom matches a type when its name starts with the type letter", "AtomType.matches changed", K(mt, "matches"))
+    check_cli(chk, fi)
+    for rule, n in (("search-radius", 1), ("option-filter", 2), ("distance-threshold", 2), ("cli-arguments", 2)):
+        chk.floor(rule, n)
+
+
+def legacy_find_clashes(chk, fi, radii, c) -> None:
+    """Pinned-form rules for find_clashes (fallback)."""
+    repo = chk.repo
     fm = FlowMap(fi.node)
     inl = Inliner(fi.node)
     loop = kd_loop(chk, fi)
@@ -238,10 +272,10 @@ def run(chk) -> None:
                 chk.error("collection", fi.site(al), f"atom selection not understood: {unk2[0][:60]}")
             else:
                 chk.expect(not bad2, "collection", fi.site(al), "an atom is registered (residue, atom, coordinates in parallel) iff it matches one of the four types", bad2[0] if bad2 else "", K(fi, "collection-atoms"))
-    mt = repo.func(M, "AtomType.matches")
-    chk.note_function(mt)
-    chk.expect([norm(s) for s in mt.node.body] == ["return atom.name.strip().startswith(self.value)"], "collection", mt.where, "an atom matches a type when its name starts with the type letter", "AtomType.matches changed", K(mt, "matches"))
 
+
+def check_cli(chk, fi) -> None:
+    repo = chk.repo
     # ---- CLI -----------------------------------------------------------------------------------------------
     mn = repo.func(M, "main")
     chk.note_function(mn)
@@ -272,7 +306,12 @@ def run(chk) -> None:
             chk.violation("csv-metadata-arg", mn.site(c2), f"read_metadata (which reads file.name) receives the path string `{norm(a0)}`: --csv raises AttributeError as soon as one clash is found, no CSV is written", K(mn, f"read_metadata({norm(a0)})"))
         else:
             chk.error("csv-metadata-arg", mn.site(c2), f"argument `{norm(a0) if a0 is not None else None}` of read_metadata not classified (path or open file)")
+    # report and CSV: fact-level first (main evaluated on a representative clash list), pinned forms as the fallback
+    from checks import c17e
+
+    why = c17e.check_main(chk, mn)
     # accumulators read what they write
+    n_acc = 0
     for s in ast.walk(mn.node):
         if isinstance(s, ast.Assign) and isinstance(s.targets[0], ast.Subscript) and isinstance(s.value, ast.Call) and astq.callee_name(s.value) == "max":
             tgt = s.targets[0]
@@ -281,10 +320,18 @@ def run(chk) -> None:
             gets = [c2 for c2 in ast.walk(val) if isinstance(c2, ast.Call) and astq.callee_name(c2) == "get"]
             ok = len(gets) == 1 and norm(gets[0].func.value) == norm(tgt.value) and flat(gets[0].args[0]) == flat(minl.inline(tgt.slice, s, stop=("ri", "rj")))
             if not gets:
-                chk.error("accumulator", mn.site(s), f"running maximum `{norm(s)[:70]}` not understood")
+                if why is not None:
+                    chk.error("accumulator", mn.site(s), f"running maximum `{norm(s)[:70]}` not understood")
                 continue
+            n_acc += 1
             chk.expect(ok, "accumulator", mn.site(s), f"`{norm(tgt)[:50]}` is the running maximum of its own previous value", f"running maximum `{norm(tgt)[:50]}` is computed from `{norm(gets[0])[:60] if gets else None}`: another container or key than the one it updates", K(mn, f"acc:{norm(tgt.value)}"))
+    if why is None:
+        for _ in range(max(0, 2 - n_acc)):
+            chk.ok("accumulator", mn.where, "running maxima not in the form D[k] = max(D.get(k, d), v): decided by rule `report-maxima` on the evaluated report")
     chk.floor("accumulator", 2)
+    if why is None:
+        return
+    chk.ok("report-facts", mn.where, f"fact-level reading of main not possible ({why[:140]}); falling back to the pinned forms")
     # printed and CSV loops over the same containers with the same sort
     outer = [l for l in ast.walk(mn.node) if isinstance(l, ast.For) and norm(l.iter) == "sorted(clashing_chains)"]
     mids = [l for l in ast.walk(mn.node) if isinstance(l, ast.For) and flat(l.iter) == flat("clashing_chains[(ci, cj)]")]
@@ -325,14 +372,14 @@ def run(chk) -> None:
             chk.violation("report-grouping", mn.site(adds[0]), f"a clash is filed under `{norm(recv)[:90]}`, not under ((ri.chain, rj.chain), (ri, rj))", K(mn, "grouping"), found=norm(recv))
         else:
             chk.error("report-grouping", mn.site(adds[0]), f"container `{norm(recv)[:90]}` receiving the clash not understood")
-    for rule, n in (("search-radius", 1), ("option-filter", 2), ("distance-threshold", 2), ("cli-arguments", 2)):
-        chk.floor(rule, n)
 
 
 MANIFEST_ENTRY = {
-    "text": "Static decision on the current source of clashfinder.py: the KD-tree radius (folded for both modes) is at least r_a + r_b + extra for every pair of atom types, so no accepted pair is outside the search; accept region of the "
-    "distance test; extra = 0.5 iff MolProbity; each option guards exactly one filter and nothing else skips a pair; atoms considered and record shape; CLI arguments go to same-named parameters; running maxima read the entry they write; "
-    "occupancy defaults only for None; report and CSV loops agree. Completeness of a search radius is a for-all-pairs claim decided here for all type pairs at once.",
+    "text": "Static decision on the current source of clashfinder.py: the KD-tree radius (evaluated for all 32 option combinations) is at least r_a + r_b + extra for every pair of atom types, so no accepted pair is outside the search; "
+    "the pairs listed by find_clashes, evaluated on one representative per input class (type pair x distance cell, residue/nucleotide configuration, name equality, occupancy class) for all 32 option combinations, are exactly those of the "
+    "van-der-Waals definition (extra = 0.5 iff MolProbity; each option guards exactly one filter; occupancy rule and sum; atoms considered; record roles; each pair once) and nothing else skips a pair (closed world of the atomic conditions); "
+    "CLI arguments go to same-named parameters; running maxima read the entry they write; occupancy defaults only for None; report and CSV list exactly the clashes found, every atom under its own residue (the key a clash is filed under and "
+    "the stored record agree on the order of the pair), printed maxima equal the maxima of the listed lines, both outputs in the same order and independent of set iteration order. Completeness of a search radius is a for-all-pairs claim decided here for all type pairs at once.",
     "note": "Trusted: KD-tree completeness and pair uniqueness; float distance not decided.",
-    "technique": "static analysis: abstract evaluation of the radius property per Enum member, constant folding of radius vs threshold over all type pairs, accept-region evaluation, closed-world guard classification, argument/parameter agreement",
+    "technique": "static analysis: abstract evaluation of the radius property per Enum member, evaluation of find_clashes / main read from the ast on input-class representatives with stubs (finite partition, nothing of the library imported or run), closed-world classification of atomic conditions by feature, argument/parameter agreement; pinned-form rules only as fallback",
 }
